@@ -3,6 +3,7 @@
 -/
 import RSVerif.Proofs.Envelope
 import RSVerif.Proofs.SrcEnvelopeSpec
+import RSVerif.Proofs.SrcDefaultSpec
 
 namespace RS
 
@@ -83,5 +84,30 @@ theorem ops_ignore_kind (e : Encoder) (kind' : Kind) (shard : Array Nat) :
 
 example : useHighRate 3 2 = .ok true ∧ useHighRate 2 3 = .ok false ∧ useHighRate 2 2 = .ok true ∧
     useHighRate 3 4 = .ok true ∧ useHighRate 4 3 = .ok false := ⟨rfl, rfl, rfl, rfl, rfl⟩
+
+open RS.Rust RS.Src RS.RustD RS.SrcD in
+/-- `DefaultRate{Encoder,Decoder}::{new, reset}` AS TRANSLATED FROM TODAY'S SOURCE (`Gen/SrcDefault.lean`) hold,
+    whenever they succeed, the dedicated codec of the rate the rule selects, built on the SAME work: `new` fails
+    exactly with the rule's / the dedicated validation's error, `reset` exactly with the default validation's -/
+theorem source_default_codec_is_rule {W : Type} (hi lo : W → Nat → Nat → Nat → Option (Res W))
+    (gh gl : W → Nat → Nat → Nat → W) (hhi : DedicatedOk .high hi gh) (hlo : DedicatedOk .low lo gl)
+    (dflt w : W) (work : Option W) (k r sb : Nat) :
+    (DefaultRateEncoder_new use_high_rate hi lo dflt k r sb work =
+      some (match useHighRate k r with
+            | .error _ => Res.Err (SrcErr.UnsupportedShardCount k r)
+            | .ok true => (match validate .high k r sb with
+                           | .ok () => Res.Ok (DInner.High (gh (work.getD dflt) k r sb))
+                           | .error e => Res.Err (srcErrOf e))
+            | .ok false => (match validate .low k r sb with
+                            | .ok () => Res.Ok (DInner.Low (gl (work.getD dflt) k r sb))
+                            | .error e => Res.Err (srcErrOf e)))) ∧
+    (DefaultRateEncoder_reset use_high_rate (Rate_validate DefaultRate_supports) hi lo (DInner.Low w) k r sb =
+      some (match useHighRate k r, validate .default k r sb with
+            | .error _, _ => (Res.Err (SrcErr.UnsupportedShardCount k r), DInner.Low w)
+            | .ok _, .error e => (Res.Err (srcErrOf e), DInner.Low w)
+            | .ok true, .ok () => (Res.Ok (), DInner.High (gh w k r sb))
+            | .ok false, .ok () => (Res.Ok (), DInner.Low (gl w k r sb)))) :=
+  ⟨(src_default_new_spec hi lo gh gl hhi hlo dflt work k r sb).1,
+   src_default_reset_spec hi lo gh gl hhi hlo _ (Or.inl rfl) (DInner.Low w) w (Or.inr rfl) k r sb⟩
 
 end RS
